@@ -248,7 +248,8 @@ ssize_t __wrap_send(int fd, const void *buf, size_t len, int flags)
 	    wait_seen++;
     }
     size_t eff = len;
-    if (f->wcredit != SHIM_UNLIMITED && !f->saw_pipe) {
+    /* AF_UNIX: once the peer is known to be gone the kernel never says EAGAIN */
+    if (f->wcredit != SHIM_UNLIMITED && !f->saw_pipe && !(f->saw_eof && f->kind == SK_SEQPACKET)) {
 	if (f->wcredit == 0 && len > 0) {
 	    int e = f->werr ? f->werr : EAGAIN;
 	    f->io.wt = e;
